@@ -333,6 +333,15 @@ def generate(rng: Prng, tier: str) -> dict:
             if s == 0 or fp.chance(0.5):
                 step["eio"] = round(fp.random(), 6) if fp.chance(0.85) else fp.choice([0.0, 1.0])
         steps.append(step)
+    ps = rng.stream("population")
+    for step in steps:
+        if ps.chance(0.1):
+            # the property's third observation point: the lazy read behind Population[...] (options are forwarded)
+            step["source"], step["api"] = "population", "Tree.from_swc"
+            step["opts"].pop("extra_cols", None)
+            if wide_ids:
+                step["opts"]["reset_index"] = True
+            step["pop"] = {"k": ps.below(3), "via": ps.choice(["index", "neg", "slice", "slice", "iter"])}
     return {"prop": PROP, "encoding": encoding, "lines": lines, "applied": applied, "align": align,
             "byte_faults": byte_faults, "steps": steps, "config": "faulting" if faulting else "fault_free"}
 
@@ -493,6 +502,24 @@ def judge(step, verdict, outcome, n_extra_cols, warns) -> dict | None:
     return None
 
 
+def read_through_population(root: str, kwargs: dict, how: dict):
+    """Four files with the same bytes in one directory; one of them is requested through the population."""
+    from swcgeom.core import Population
+
+    pop = Population.from_swc(root, **kwargs)
+    k, via = how["k"], how["via"]
+    if via == "index":
+        return pop[k]
+    if via == "neg":
+        return pop[k - len(pop)]
+    if via == "slice":
+        return pop[k:][0] if k % 2 else pop[0:k + 1][k]
+    it = iter(pop)
+    for _ in range(k):
+        next(it)
+    return next(it)
+
+
 def execute(program: dict) -> dict:
     from swcgeom.core import Tree
     from swcgeom.core.swc_utils import read_swc
@@ -541,6 +568,12 @@ def execute(program: dict) -> dict:
             if source == "path":
                 world.read_plans["a/file.swc"] = plan
                 src = world.path("a/file.swc") if (si + len(data)) % 3 else pathlib.Path(world.path("a/file.swc"))
+            elif source == "population":
+                for name in ("p/a.swc", "p/sub/b.swc", "p/c.swc", "p/sub/deep/d.swc"):
+                    world.put(name, data)
+                    world.read_plans[name] = plan
+                src = None
+                world.probe("c02.read_through_population")
             elif source == "bytes":
                 src = world.bytes_source(data, plan)
             elif source == "textwrapper":
@@ -551,7 +584,9 @@ def execute(program: dict) -> dict:
                 kwargs.pop("encoding", None)
             before = dict(world.faults)
             try:
-                if step["api"] == "read_swc":
+                if source == "population":
+                    res = read_through_population(world.path("p"), kwargs, step["pop"])
+                elif step["api"] == "read_swc":
                     res = read_swc(src, **kwargs)
                 else:
                     res = Tree.from_swc(src, **kwargs)
